@@ -85,15 +85,7 @@ pub fn run(ctx: &Ctx) -> Report {
                     if let Some(fp) = dm.attrs.iter().find(|a| a.typ == wire::FP) {
                         let off = fp.offset;
                         let v = u32::from_be_bytes([m[off + 4], m[off + 5], m[off + 6], m[off + 7]]);
-                        let crc = |d: &[u8]| crate::refimpl::crypto::crc32_fast(d);
-                        let mut alts: Vec<u32> = vec![v.swap_bytes(), !v, v ^ wire::FP_XOR, v.rotate_left(8), v.rotate_left(16), v.rotate_left(24), v.reverse_bits(), crc(&m[..off]) ^ wire::FP_XOR, crc(&m[..off]), crc(&m[..off + 4]) ^ wire::FP_XOR, crc(&m[20..off]) ^ wire::FP_XOR, crc(&m[2..off]) ^ wire::FP_XOR, crc(&m[4..off]) ^ wire::FP_XOR, crc(&m[8..off]) ^ wire::FP_XOR, 0, 0xFFFF_FFFF, wire::FP_XOR];
-                        // CRC with the length field set to other plausible values
-                        for l in [off - 20, off + 4 - 20, m.len() - 20 + 4, 0] {
-                            let mut pre = m[..off].to_vec();
-                            wire::set_len(&mut pre, l);
-                            alts.push(crc(&pre) ^ wire::FP_XOR);
-                        }
-                        for a in alts {
+                        for a in alt_crc_values(m, off) {
                             if a != v {
                                 let mut b = m.clone();
                                 b[off + 4..off + 8].copy_from_slice(&a.to_be_bytes());
@@ -217,6 +209,23 @@ pub fn run(ctx: &Ctx) -> Report {
         assumptions: vec!["mutants the reference decoder accepts (FINGERPRINT dissolved into other well-formed attributes) fall under C02, not C09".into()],
         ..Default::default()
     }
+}
+
+/// Values a FINGERPRINT at offset `off` of `m` might carry under a plausible mistake or leniency:
+/// byte-swapped, complemented, without the XOR constant, rotated, CRC over other ranges or with the
+/// length field set otherwise.
+pub fn alt_crc_values(m: &[u8], off: usize) -> Vec<u32> {
+    let v = u32::from_be_bytes([m[off + 4], m[off + 5], m[off + 6], m[off + 7]]);
+    let crc = |d: &[u8]| crate::refimpl::crypto::crc32_fast(d);
+    let mut alts: Vec<u32> = vec![v.swap_bytes(), !v, v ^ wire::FP_XOR, v.rotate_left(8), v.rotate_left(16), v.rotate_left(24), v.reverse_bits(), crc(&m[..off]) ^ wire::FP_XOR, crc(&m[..off]), crc(&m[..off + 4]) ^ wire::FP_XOR, crc(&m[20..off]) ^ wire::FP_XOR, crc(&m[2..off]) ^ wire::FP_XOR, crc(&m[4..off]) ^ wire::FP_XOR, crc(&m[8..off]) ^ wire::FP_XOR, 0, 0xFFFF_FFFF, wire::FP_XOR];
+    // CRC with the length field set to other plausible values
+    for l in [off - 20, off + 4 - 20, m.len() - 20 + 4, 0] {
+        let mut pre = m[..off].to_vec();
+        wire::set_len(&mut pre, l);
+        alts.push(crc(&pre) ^ wire::FP_XOR);
+        alts.push(crc(&pre));
+    }
+    alts
 }
 
 /// A corrupted copy `b` of the fingerprinted message `m`; the case also records the original value
